@@ -45,6 +45,17 @@ else:
     def _open_csv(x, mode='r'):
         return open(x, mode+'t', newline='', encoding='utf-8')  # for csv module, open() mode needed to be binary for Python 2, but on Py3 it needs to be text mode, no binary! https://stackoverflow.com/a/34283957/1121352
 
+class _csv_writer(object):
+    '''csv.writer that also quotes the fields containing a carriage return. The csv reader always takes a bare \\r for an end of row (whatever its lineterminator), but the csv writer (before Python 3.13) only quotes the characters of its own lineterminator: with lineterminator='\\n', a field (eg, a filename) containing \\r was written unquoted and read back as two garbage rows.'''
+    def __init__(self, csvfile, **fmtparams):
+        import csv
+        self._writer = csv.writer(csvfile, **fmtparams)
+        self._writer_quoteall = csv.writer(csvfile, quoting=csv.QUOTE_ALL, **fmtparams)
+    def writerow(self, row):
+        if any(isinstance(x, _str) and '\r' in x for x in row):
+            return self._writer_quoteall.writerow(row)
+        return self._writer.writerow(row)
+
 if sys.version_info < (3,):
     def _ord(x):
         return ord(x)
